@@ -96,12 +96,27 @@ def contextTarget (valid : Bytes → Bool) (v : TargetVars) : Except Err Target 
         | none => .error .distroVersion
         | some dver => .ok { os := os, arch := arch, variant := variant, dname := dname, dver := dver }
 
-/-- everything the lifecycle supplies to a phase (`X`: documents decoded by the `toml` crate) -/
+/-- everything the lifecycle supplies to a phase (`X`: documents decoded by the `toml` crate).
+
+The five paths are carried as their **texts**: opaque byte strings exactly as written by the platform (absolute or relative,
+through links, with `.` / `..` / doubled or trailing slashes — the model never looks inside). That mirrors the code:
+`PathBuf::from(arg)` for the positional arguments (`DetectArgs::parse` / `BuildArgs::parse`), `env::var("CNB_BUILDPACK_DIR")
+.map(PathBuf::from)` for the buildpack directory — no `canonicalize`, no `absolute`, no `components()` round trip. The app
+directory is not handed over as a text at all: the lifecycle enters it (`chdir`) and the code asks `env::current_dir()`; `cwd`
+is what that call returns (the kernel's name of the working directory, whatever path it was entered by). -/
 structure Inputs (X : Type) where
+  /-- what `env::current_dir()` returns -/
   cwd : Bytes
+  /-- value of `CNB_BUILDPACK_DIR`, as written -/
   bpDir : Bytes
-  /-- `<layers>` argument (build only) -/
+  /-- `<layers>` argument, as written (build only) -/
   layersDir : Option Bytes
+  /-- `<platform>` argument, as written. The code only opens `<platform>/env` through it; `plat` is what the OS finds there. It
+  is not a field of either context. -/
+  platArg : Bytes := []
+  /-- `<plan>` argument, as written (detect: where the build plan goes; build: where the buildpack plan is read from, `plan` is
+  what was decoded). Not a field of either context. -/
+  planArg : Bytes := []
   vars : TargetVars
   plat : PlatDir
   /-- buildpack plan (build only) -/
